@@ -128,9 +128,61 @@ func guardDisk() {
 	}
 	free := st.Bavail * uint64(st.Bsize)
 	if free < 30<<30 {
+		unlock := CacheLockExclusive()
+		defer unlock()
+		// somebody else may have cleaned while this process waited for the lock
+		if err := syscall.Statfs(os.TempDir(), &st); err == nil && st.Bavail*uint64(st.Bsize) >= 30<<30 {
+			return
+		}
 		cmd := exec.Command("go", "clean", "-cache")
 		cmd.Env = goEnv()
 		_ = cmd.Run()
+	}
+}
+
+// The Go build cache is shared by every process of every check. Wiping it while another process runs
+// gombok (go/packages reads export data out of it) makes that run fail with "internal error: package
+// ... without types was imported": so every toolchain command holds a shared lock for its duration
+// and the cleaner an exclusive one. A marker file keeps new readers out while a cleaner waits (flock
+// has no writer preference); a marker older than ten minutes belongs to a dead cleaner and is ignored.
+func cacheLockPath() string { return filepath.Join(os.TempDir(), "verif-gocache.lock") }
+
+func cacheLock(how int) func() {
+	f, err := os.OpenFile(cacheLockPath(), os.O_CREATE|os.O_RDWR, 0o666)
+	if err != nil {
+		return func() {}
+	}
+	if err := syscall.Flock(int(f.Fd()), how); err != nil {
+		f.Close()
+		return func() {}
+	}
+	return func() {
+		_ = syscall.Flock(int(f.Fd()), syscall.LOCK_UN)
+		f.Close()
+	}
+}
+
+// CacheLockShared is held around every command that reads the Go build cache.
+func CacheLockShared() func() {
+	marker := cacheLockPath() + ".cleaning"
+	for i := 0; i < 1200; i++ {
+		st, err := os.Stat(marker)
+		if err != nil || time.Since(st.ModTime()) > 10*time.Minute {
+			break
+		}
+		time.Sleep(500 * time.Millisecond)
+	}
+	return cacheLock(syscall.LOCK_SH)
+}
+
+// CacheLockExclusive is held by the process that wipes the cache.
+func CacheLockExclusive() func() {
+	marker := cacheLockPath() + ".cleaning"
+	_ = os.WriteFile(marker, []byte(fmt.Sprint(os.Getpid())), 0o666)
+	unlock := cacheLock(syscall.LOCK_EX)
+	return func() {
+		_ = os.Remove(marker)
+		unlock()
 	}
 }
 
@@ -182,6 +234,7 @@ type Result struct {
 }
 
 func (m *Module) run(rel string, timeout time.Duration, env []string, name string, args ...string) Result {
+	defer CacheLockShared()()
 	cmd := exec.Command(name, args...)
 	cmd.Dir = filepath.Join(m.Dir, rel)
 	cmd.Env = goEnv(env...)
@@ -214,7 +267,32 @@ func (m *Module) run(rel string, timeout time.Duration, env []string, name strin
 func (m *Module) RunGombok(rel, pkg string, extraEnv ...string) Result {
 	bin, _ := Gombok()
 	env := append([]string{"GOPACKAGE=" + pkg, "GOFILE=types.go", "GOLINE=1"}, extraEnv...)
-	return m.run(rel, 120*time.Second, env, bin)
+	var r Result
+	for attempt := 0; attempt < 3; attempt++ {
+		r = m.run(rel, 120*time.Second, env, bin)
+		if !ToolchainTrouble(r.Out) {
+			break
+		}
+		time.Sleep(time.Duration(attempt+1) * 2 * time.Second)
+	}
+	return r
+}
+
+// ToolchainTrouble recognises output that reports a failure of the environment the tool ran in, not a
+// decision of the tool: go/packages could not read export data because the shared Go build cache was
+// being trimmed or cleaned by another process at that moment ("internal error: package ... without
+// types was imported from ..."), or the machine ran out of disk, memory or processes. Such a run says
+// nothing about the property; callers retry and otherwise report a harness problem (inconclusive).
+func ToolchainTrouble(out string) bool {
+	if strings.Contains(out, "internal error: package ") && strings.Contains(out, " without types was imported from ") {
+		return true
+	}
+	for _, m := range []string{"no space left on device", "cannot allocate memory", "resource temporarily unavailable", "too many open files"} {
+		if strings.Contains(out, m) {
+			return true
+		}
+	}
+	return false
 }
 
 // Go runs a go command at the module root.
